@@ -47,16 +47,85 @@ type c16Cfg struct {
 	Left  bool
 	Keys  []string // table key fields
 	Alias bool
+	SKeys []string // stream-side field names of the ON pairs (default: the table key names)
+}
+
+func (c c16Cfg) streamKeys() []string {
+	if len(c.SKeys) > 0 {
+		return c.SKeys
+	}
+	return c.Keys
+}
+
+// c16NameConfigs: identifier diversity of the ON clause - stream/table aliases x stream/table key field
+// names, including names that begin with the letters of their qualifier (s.sid, m.mid, st.t ...).
+func c16NameConfigs() []c16Cfg {
+	var out []c16Cfg
+	for _, sa := range []string{"", "s", "st", "ms"} {
+		for _, ta := range []string{"m", "t", ""} {
+			for _, sf := range []string{"sid", "mid", "sensorId", "t", "s", "dev"} {
+				for _, tf := range []string{"mid", "tid", "machineId", "m", "sid", "dev"} {
+					for _, left := range []bool{false, true} {
+						sq, tq := "", "meta."
+						if sa != "" {
+							sq = sa + "."
+						}
+						if ta != "" {
+							tq = ta + "."
+						}
+						jt := "JOIN"
+						if left {
+							jt = "LEFT JOIN"
+						}
+						sql := fmt.Sprintf("SELECT %sid AS id, %sloc AS loc FROM stream %s %s meta %s ON %s%s = %s%s", sq, tq, sa, jt, ta, sq, sf, tq, tf)
+						out = append(out, c16Cfg{Name: "names", SQL: strings.Join(strings.Fields(sql), " "), Left: left, Keys: []string{tf}, SKeys: []string{sf}})
+					}
+				}
+			}
+		}
+	}
+	return out
+}
+
+// c16Names runs a fixed operation script on every naming configuration.
+func c16Names() fw.Result {
+	a := newAcc("C16", "join-names")
+	ops := []c16Op{{Kind: "emit", Key: []any{1}}, {Kind: "upsert", Key: []any{1}}, {Kind: "emit", Key: []any{1}}, {Kind: "emit", Key: []any{"a"}}, {Kind: "emit", Key: []any{2}},
+		{Kind: "delete", Key: []any{1}}, {Kind: "emit", Key: []any{1}}}
+	for ci, cfg := range c16NameConfigs() {
+		init := []Row{{cfg.Keys[0]: "a", "loc": "Ta"}}
+		got, want, execErr, st, pv := c16Run(cfg, init, ops)
+		a.r.Evaluations++
+		a.r.States++
+		a.r.Transitions += int64(len(ops))
+		a.r.Nontrivial++
+		cs := map[string]any{"sql": cfg.SQL, "table": init, "ops": ops}
+		if st != sched.StatusOK || execErr != "" {
+			a.fail("C16|names|exec", execErr+" "+st.String()+" "+firstLine(pv), cs, nil, nil)
+			continue
+		}
+		a.outcome(js(got))
+		for i := range want {
+			if i >= len(got) || !c16Eq(got[i], want[i]) {
+				a.fail("C16|names|wrong-join-result", fmt.Sprintf("%s: emit #%d gives %s, reference %s", cfg.SQL, i+1, js(got), js(want)), cs, want, got)
+				break
+			}
+		}
+		if ci == 17 {
+			a.sample(map[string]any{"sql": cfg.SQL, "ops": fmt.Sprint(ops), "results": got})
+		}
+	}
+	return a.result()
 }
 
 func c16Configs() []c16Cfg {
 	return []c16Cfg{
-		{"inner-alias", "SELECT s.id AS id, m.loc AS loc FROM stream s JOIN meta m ON s.dev = m.dev", false, []string{"dev"}, true},
-		{"left-alias", "SELECT s.id AS id, m.loc AS loc FROM stream s LEFT JOIN meta m ON s.dev = m.dev", true, []string{"dev"}, true},
-		{"inner-noalias", "SELECT id, m.loc AS loc FROM stream JOIN meta m ON dev = m.dev", false, []string{"dev"}, false},
-		{"left-where", "SELECT id, m.loc AS loc FROM stream LEFT JOIN meta m ON dev = m.dev WHERE id > 0", true, []string{"dev"}, false},
-		{"inner-composite", "SELECT id, m.loc AS loc FROM stream JOIN meta m ON dev = m.dev AND site = m.site", false, []string{"dev", "site"}, false},
-		{"left-composite", "SELECT id, m.loc AS loc FROM stream LEFT JOIN meta m ON dev = m.dev AND site = m.site", true, []string{"dev", "site"}, false},
+		{"inner-alias", "SELECT s.id AS id, m.loc AS loc FROM stream s JOIN meta m ON s.dev = m.dev", false, []string{"dev"}, true, nil},
+		{"left-alias", "SELECT s.id AS id, m.loc AS loc FROM stream s LEFT JOIN meta m ON s.dev = m.dev", true, []string{"dev"}, true, nil},
+		{"inner-noalias", "SELECT id, m.loc AS loc FROM stream JOIN meta m ON dev = m.dev", false, []string{"dev"}, false, nil},
+		{"left-where", "SELECT id, m.loc AS loc FROM stream LEFT JOIN meta m ON dev = m.dev WHERE id > 0", true, []string{"dev"}, false, nil},
+		{"inner-composite", "SELECT id, m.loc AS loc FROM stream JOIN meta m ON dev = m.dev AND site = m.site", false, []string{"dev", "site"}, false, nil},
+		{"left-composite", "SELECT id, m.loc AS loc FROM stream LEFT JOIN meta m ON dev = m.dev AND site = m.site", true, []string{"dev", "site"}, false, nil},
 	}
 }
 
@@ -142,7 +211,7 @@ func c16Run(cfg c16Cfg, init []Row, ops []c16Op) (got, want []*c16Out, execErr s
 			switch op.Kind {
 			case "emit":
 				row := Row{"id": i + 1}
-				for j, f := range cfg.Keys {
+				for j, f := range cfg.streamKeys() {
 					if op.Key[j] != nil {
 						row[f] = op.Key[j]
 					} else {
@@ -249,6 +318,7 @@ func (c16) Plan(tier string) []fw.Unit {
 		us = append(us, fw.Unit{Check: "C16", Kind: "sched", Tier: tier, Spec: fw.Spec(schedSpec{Scn: i, Name: sc.Name, Items: []explore.Item{{}}, Bound: bound, Budget: 20000})})
 	}
 	us = append(us, fw.Unit{Check: "C16", Kind: "groupby", Tier: tier, Spec: fw.Spec(enumSpec{})})
+	us = append(us, fw.Unit{Check: "C16", Kind: "names", Tier: tier, Spec: fw.Spec(enumSpec{})})
 	return us
 }
 
@@ -258,6 +328,9 @@ func (c16) Run(u fw.Unit) fw.Result {
 	}
 	if u.Kind == "groupby" {
 		return c16GroupBy()
+	}
+	if u.Kind == "names" {
+		return c16Names()
 	}
 	sp := parseEnum(u)
 	cfg := c16Configs()[sp.Cfg]
@@ -499,7 +572,7 @@ func c16Scenarios() []schedScenario {
 func (c16) Describe(tier string) fw.Description {
 	return fw.Description{
 		Level: "model_checking",
-		Rule: "(a) 6 JOIN queries (INNER/LEFT, with/without stream and table aliases, WHERE, composite ON) x 2-3 initial tables x all operation sequences of length 1..L over {EmitSync(key), UpsertTable(key), Delete(key)} with key components from {1, 1.0, '1', 2, 'a', NULL, 1000000, 1000000.0} (composite: {1,'1',1.0} x {'x','y',NULL}) on the real engine against a typed-key reference table (numbers numeric, strings exact, never across, NULL matches nothing); (b) WHERE + GROUP BY on a joined column with CountingWindow(2) over all dev sequences of length 6; (c) schedules: a thread emitting two rows against a thread doing Upsert then Delete, all interleavings with <= bound deviations: each delivered row must be the join against a table version between the version when Emit was called and the version when the result was delivered; non-trivial = at least one emit matched",
+		Rule: "(a) 6 JOIN queries (INNER/LEFT, with/without stream and table aliases, WHERE, composite ON) x 2-3 initial tables x all operation sequences of length 1..L over {EmitSync(key), UpsertTable(key), Delete(key)} with key components from {1, 1.0, '1', 2, 'a', NULL, 1000000, 1000000.0} (composite: {1,'1',1.0} x {'x','y',NULL}) on the real engine against a typed-key reference table (numbers numeric, strings exact, never across, NULL matches nothing); (a2) 864 naming configurations (stream alias none|s|st|ms x table alias m|t|none x stream key field x table key field, incl. names starting with the letters of their qualifier; INNER/LEFT) on a fixed 7-operation script; (b) WHERE + GROUP BY on a joined column with CountingWindow(2) over all dev sequences of length 6; (c) schedules: a thread emitting two rows against a thread doing Upsert then Delete, all interleavings with <= bound deviations: each delivered row must be the join against a table version between the version when Emit was called and the version when the result was delivered; non-trivial = at least one emit matched",
 		Bounds:      map[string]any{"max_ops": map[string]int{"quick": 3, "thorough": 4}, "sched_bound": map[string]int{"quick": 1, "thorough": 2}},
 		Assumptions: []string{"a NULL key component matches nothing (SQL equality)"},
 	}
